@@ -64,7 +64,33 @@ fn random_valid_tokens(rng: &mut Rng) -> Vec<(K, String)> {
     })
 }
 
+/// A valid file in which the number of something sits on a threshold (items, fields of one fieldset,
+/// variants, terminals, path segments, type arguments, attributes).
+fn sized_valid_file(rng: &mut Rng) -> String {
+    let n = *rng.pick(&[9usize, 10, 11, 15, 16, 17, 31, 32, 33, 63, 64, 65, 99, 100, 101, 127, 128, 129, 255, 256, 257]);
+    match rng.below(7) {
+        0 => {
+            let mut s = String::from("start S0\nterminal Tok { $A: () }\n");
+            for i in 0..n.saturating_sub(2) {
+                s.push_str(&format!("struct S{i}\n"));
+            }
+            s
+        }
+        1 => format!("start S\nstruct S({})\nterminal Tok {{ $A: () }}\n", (0..n).map(|i| if i % 3 == 0 { "_: $A " } else { "$A " }).collect::<String>()),
+        2 => format!("start S\nstruct S {{ {} }}\nterminal Tok {{ $A: () }}\n", (0..n).map(|i| if i % 4 == 1 { "_: $A ".to_string() } else { format!("f{i}: $A ") }).collect::<String>()),
+        3 => format!("start S\nenum S {{ {} }}\nterminal Tok {{ $A: () $B: () }}\n", (0..n).map(|i| format!("V{i}({}) ", "$A ".repeat(i % 5) + "$B")).collect::<String>()),
+        4 => format!("start S\nstruct S($T0)\nterminal Tok {{ {} }}\n", (0..n).map(|i| format!("$T{i}: () ")).collect::<String>()),
+        5 => format!("start S\nstruct S($A)\nterminal Tok {{ $A: a{} }}\n", "::b".repeat(n - 1)),
+        _ => format!("start S\n{}struct S($A)\nterminal Tok {{ $A: m<{}> }}\n", "#[x]\n".repeat(n % 40), (0..n).map(|i| format!("t{i}")).collect::<Vec<_>>().join(", ")),
+    }
+}
+
 fn some_valid_tokens(rng: &mut Rng) -> Vec<(K, String)> {
+    if rng.below(25) == 0 {
+        if let Some(t) = gtext::tokens_of(&sized_valid_file(rng)) {
+            return t;
+        }
+    }
     let v = valid_sources();
     if !v.is_empty() && rng.chance(0.35) {
         let src = rng.pick(v);
@@ -90,12 +116,28 @@ fn some_valid_tokens(rng: &mut Rng) -> Vec<(K, String)> {
 
 /// The `sub`-th input of batch `idx` for a property: (class, text).
 pub fn input_for(prop: &str, tier: Tier, seed: u64, idx: u64, sub: u64) -> (String, String) {
+    let (class, text) = input_for_unpadded(prop, tier, seed, idx, sub);
+    // now and then everything is moved behind a long comment, so that byte positions cross 2^8, 2^12,
+    // 10^4, 2^15 ... (positions flow into tokens, spans and every error message)
+    let mut rng = Rng::for_case(seed, &format!("front-pad-{prop}"), idx * BATCH + sub);
+    if prop != "C07" && idx * BATCH + sub > 400 && rng.below(40) == 0 {
+        return (format!("{class}+padded"), format!("{}{}", gtext::position_padding(&mut rng), text));
+    }
+    (class, text)
+}
+
+fn input_for_unpadded(prop: &str, tier: Tier, seed: u64, idx: u64, sub: u64) -> (String, String) {
     let mut rng = Rng::for_case(seed, &format!("front-{prop}"), idx * BATCH + sub);
     let n = idx * BATCH + sub;
     let a = gtext::ATOMS.len() as u64;
     match prop {
         "C08" | "C07-lex" => {
-            // exhaustive small strings first
+            // hand-picked special texts, then exhaustive small strings
+            let specials = gtext::special_texts();
+            if (n as usize) < specials.len() {
+                return ("special".into(), specials[n as usize].clone());
+            }
+            let n = n - specials.len() as u64;
             if n < a {
                 return ("atoms-1".into(), gtext::atom_string(n, 1));
             }
@@ -202,6 +244,9 @@ pub fn input_for(prop: &str, tier: Tier, seed: u64, idx: u64, sub: u64) -> (Stri
             let (_, cfg, force) = crate::gen::small_grammar(&mut rng);
             let mut m = crate::model::model_from_cfg(&cfg, &force);
             crate::model::assign_random_shapes(&mut m, &mut rng, 0.5);
+            if rng.chance(0.4) {
+                crate::model::shuffle_names(&mut m, &mut rng);
+            }
             m.start_pos = rng.below(m.nts.len() + 1);
             m.term_pos = rng.below(m.nts.len() + 1);
             if rng.chance(0.3) {
@@ -233,8 +278,8 @@ pub fn input_for(prop: &str, tier: Tier, seed: u64, idx: u64, sub: u64) -> (Stri
                 4..=6 => "C07-parse",
                 _ => "C07-validate",
             };
-            if n < a + a * a {
-                return input_for("C07-lex", tier, seed, idx, sub);
+            if n < a + a * a + 600 {
+                return input_for_unpadded("C07-lex", tier, seed, idx, sub);
             }
             let (c, t) = input_for(which, tier, seed, idx, sub);
             (c, t)
